@@ -72,6 +72,11 @@ class ParamsGenerator:
 
     if model_qsvs is None:
       model_qsvs = {}
+    else:
+      # Materialize functions update the QSVs in place (e.g., ops whose output
+      # shares the input scale). Work on a copy so the caller's calibration
+      # result is not modified and can be reused with another recipe.
+      model_qsvs = copy.deepcopy(model_qsvs)
 
     op_codes = self.flatbuffer_model.operatorCodes
     for subgraph in self.flatbuffer_model.subgraphs:
